@@ -57,6 +57,10 @@ def handler(case):
                     viols.append(("c14.reconnect-before-parent", f"increment {r['k']}: {mode} microgrid reconnects while the breaker of {dist.name} is open and its sectioning time still runs ({r['timers'][dist.name]} h left)"))
                 if mode == "SURVIVAL" and prev_open and r["dist_failed"][dist.name] and not r["cb_open"][mg.name]:
                     viols.append(("c14.survival", f"increment {r['k']}: SURVIVAL microgrid reconnected although {dist.name} still has a failed line {r['failed']}"))
+                own_sec = mg.connected_line.section
+                own_failed = [l.name for l in own_sec.lines if l.name in r["failed"]] if own_sec is not None else []
+                if own_failed and not r["cb_open"][mg.name]:
+                    viols.append(("c14.connected-unhealthy", f"increment {r['k']}: {mode} microgrid is connected although the section of its own connection holds the failed line(s) {own_failed}"))
                 if mg.name in r.get("open_no_reason", []):
                     viols.append(("c14.separated-without-reason", f"increment {r['k']}{' of the second iteration' if second_seen else ''}: {mode} microgrid is separated although its sectioning time has run out, "
                                   f"its own connection is healthy and {dist.name} has no failed line (failed lines: {r['failed']}, network flag failed_line={r['dist_failed'][dist.name]})"))
@@ -227,6 +231,21 @@ def gen(rng, nm, na):
         k2 = k1 + rng.randint(1, max(1, int(Tq / dtq)))
         c["faults"] = {str(k1): [[mgline, str(Tq + rng.choice([3, 4]) * dtq + 2)]], str(k2): [[rng.choice(d_lines), str(rng.choice([F(2), F(3)]))]]}
         c["n_inc"] = k2 + int((2 * Tq + 8) / dtq) + 10
+        cases.append(c)
+    for q in range(max(2, (nm + na) // 25)):
+        # targeted: ICT-based control, the section of the microgrid's connecting line is partly instrumented (the connecting line has a
+        # sensor, an inner line without switch has none); a fault on the sensor-less line
+        while True:
+            c = ctl.gen_scenario(rng, max_lines=3, ctrl="main", nfeed=1)
+            if c["spec"].get("mg"):
+                break
+        c["spec"]["mg"]["n"] = rng.choice([2, 3]); c["spec"]["mg"]["discon"] = False
+        c["spec"]["mg"]["mode"] = ["survival", "full", "limited"][q % 3]
+        c["spec"]["ctrl"].pop("ict", None)
+        c["spec"]["ctrl"]["nodev"] = ["SML1"]
+        if F(c["spec"]["ctrl"]["T"]) == 0:
+            c["spec"]["ctrl"]["T"] = "1"
+        c["faults"] = {str(rng.randint(1, 3)): [["ML1", str(rng.choice([F(3), F(4)]))]]}
         cases.append(c)
     return cases
 
